@@ -3,6 +3,7 @@
 package worlds
 
 import (
+	"context"
 	"encoding/json"
 	"errors"
 	"fmt"
@@ -246,7 +247,7 @@ func (w *c18aWorld) Run(c *kernel.RunCtx) {
 					op.doc, _ = json.Marshal(m)
 				}
 			case "consume":
-				op.consume = 1 + c.Choose(3)
+				op.consume = 1 + c.Choose(4)
 			}
 			plans[t] = append(plans[t], op)
 			c.End()
@@ -462,6 +463,20 @@ func (w *c18aWorld) consume(q *bt.FeeQuote, kind int) {
 		_, _ = tx.IsFeePaidEnough(q)
 	case 2:
 		_, _ = tx.EstimateFeesPaid(q)
+	case 4:
+		// funding a task-private transaction from the shared quote
+		ftx := bt.NewTx()
+		ftx.AddOutput(&bt.Output{Satoshis: 5000, LockingScript: scriptPtr(p2pkh(make([]byte, 20)))})
+		n := 0
+		_ = ftx.Fund(context.Background(), q, func(ctx context.Context, deficit uint64) ([]*bt.UTXO, error) {
+			n++
+			if n > 4 {
+				return nil, bt.ErrNoUTXO
+			}
+			id := make([]byte, 32)
+			id[0] = byte(n)
+			return []*bt.UTXO{{TxID: id, Vout: uint32(n), Satoshis: deficit/2 + 1, LockingScript: scriptPtr(p2pkh(make([]byte, 20)))}}, nil
+		})
 	default:
 		_ = tx.Change(scriptPtr(p2pkh(make([]byte, 20))), q)
 	}
